@@ -68,7 +68,20 @@ func (x *Exec) callStatic(fr *Frame, st *State, fn *ssa.Function, args []*SV, fr
 		upkg = x.unit.Con.Pkg
 	}
 	if con := x.eng.contractSeenFrom(upkg, fn); con != nil && (con.View || !(fr.pure && con.Pure && fn.Blocks != nil && x.eng.inlinable(fn))) {
-		if con.Implements != "" && len(con.ParamNames) == len(args)+1 {
+		if con.Implements != "" && len(fn.FreeVars) > 0 && len(con.ParamNames) == len(args)+1+len(fn.FreeVars) && len(free) == len(fn.FreeVars) {
+			// a closure called through its own contract: the contract's parameters are
+			// self, the closure's parameters, then the current values of its captured variables
+			self := TV(x.fnTerm(&SV{Fn: fn, Bind: free}))
+			full := append([]*SV{self}, args...)
+			for _, fv := range free {
+				if fv.P != nil {
+					full = append(full, TV(x.Load(fr, st, fv.P)))
+				} else {
+					full = append(full, fv)
+				}
+			}
+			args = full
+		} else if con.Implements != "" && len(con.ParamNames) == len(args)+1 {
 			// the contract's first parameter is `self`
 			var self *SV
 			if recv := fn.Signature.Recv(); recv != nil && strings.Contains(con.Implements, ".") {
@@ -730,7 +743,7 @@ func (x *Exec) checkAtCalls(fr *Frame, st *State, names []string, args []*SV, si
 				sub, ord = strings.TrimSpace(sub[:i]), n
 			}
 		}
-		if !strings.Contains(text, sub) {
+		if !siteMatches(text, sub) {
 			continue
 		}
 		if ord > 0 && x.callSiteOrdinal(fr.fn, sub, site.Pos()) != ord {
@@ -795,7 +808,7 @@ func (x *Exec) callSiteOrdinal(fn *ssa.Function, sub string, pos token.Pos) int 
 				continue
 			}
 			seen[p] = true
-			if strings.Contains(x.srcLabel(p, "call"), sub) {
+			if siteMatches(x.srcLabel(p, "call"), sub) {
 				ps = append(ps, int(p))
 			}
 		}
@@ -818,4 +831,35 @@ func mentionsFresh(con *Contract) bool {
 		}
 	}
 	return false
+}
+
+
+// siteMatches: an atcall site pattern matches a call whose source text contains it; a pattern that
+// starts with ^ must match at the start of the text (the call itself, not a call among its arguments).
+func siteMatches(text, pat string) bool {
+	if strings.HasPrefix(pat, "^") {
+		if !strings.HasPrefix(text, pat[1:]) {
+			return false
+		}
+		// the call itself: the argument list opened by the first parenthesis runs to the end of the
+		// text (not f(...)(x), which is a call of f's result)
+		i := strings.Index(text, "(")
+		if i < 0 {
+			return true
+		}
+		depth := 0
+		for j := i; j < len(text); j++ {
+			switch text[j] {
+			case '(':
+				depth++
+			case ')':
+				depth--
+				if depth == 0 {
+					return j == len(text)-1
+				}
+			}
+		}
+		return true
+	}
+	return strings.Contains(text, pat)
 }
